@@ -205,3 +205,10 @@ impl<A, B, C> Split for (A, B, C) {
     #[verifier::external_body]
     fn split(self) -> (r: ((A,), (B, C))) { ((self.0,), (self.1, self.2)) }
 }
+impl<A, B, C, D> Split for (A, B, C, D) {
+    type Left = (A, B);
+    type Right = (C, D);
+    open spec fn split_spec(self) -> ((A, B), (C, D)) { ((self.0, self.1), (self.2, self.3)) }
+    #[verifier::external_body]
+    fn split(self) -> (r: ((A, B), (C, D))) { ((self.0, self.1), (self.2, self.3)) }
+}
